@@ -54,7 +54,7 @@ def corner_models(rng, n):
     out = []
     kinds = ["rank0", "rank1", "rank2", "rank3", "rank5", "prime", "batch2", "float", "uint8", "int16", "int32",
              "bool", "noquant", "peraxis_act", "unsupported", "big_kernel", "stride4", "unit", "dup_inputs",
-             "two_outputs", "int64", "reshape_dyn", "custom_noopts", "bias40", "split_strided", "cpu_concat3", "bcast_one"]
+             "two_outputs", "int64", "reshape_dyn", "custom_noopts", "bias40", "split_strided", "cpu_concat3", "bcast_one", "reduce_scalar_axis", "mean_rank1"]
     for i in range(n):
         k = kinds[i % len(kinds)] if i < len(kinds) else rng.choice(kinds)
         net = netgen.Net(rng.randrange(1 << 16))
@@ -167,6 +167,19 @@ def corner_models(rng, n):
             x = net.fm("in", [1, rng.choice([32, 64]), 64, rng.choice([16, 32])], is_input=True)
             b = net.fm("b", [1, 1, 1, 1], scale=0.02, zp=1, is_input=True)
             y = net.eltwise(rng.choice(["ADD", "MUL", "SUB"]), x, b)
+        elif k == "reduce_scalar_axis":     # CPU-resident reduction whose axis operand is a rank-0 constant
+            x = net.fm("in", [1, 4, 4, 8], is_input=True)
+            a = net.eltwise("ADD", x, net.fm("in2", [1, 4, 4, 8], is_input=True))
+            ax = net.const("axis", [], rng.choice(["INT32", "INT64"]), data=[3])
+            y = net.fm("out", [1, 4, 4], "INT8", 0.1, -1)
+            net.op(rng.choice(["REDUCE_MAX", "REDUCE_MIN", "REDUCE_PROD"]), [a, ax], [y], ["ReducerOptions", {"KeepDims": False}])
+            fb = True
+        elif k == "mean_rank1":             # MEAN over a rank-1 tensor
+            ln = rng.choice([1, 16, 17])
+            x = net.fm("in", [ln], is_input=True)
+            ax = net.const("axis", [1], "INT32", data=[0])
+            y = net.fm("out", [1], "INT8", 0.05, 0)
+            net.op("MEAN", [x, ax], [y], ["ReducerOptions", {"KeepDims": True}])
         elif k == "two_outputs":
             x = net.fm("in", [1, 8, 8, 8], is_input=True)
             a = net.conv(x, 8, 3)
